@@ -24,6 +24,11 @@ TokensPath ==
     \cup {[t |-> "ds", kind |-> "env", tag |-> 6, out |-> o] : o \in {1, 60}}
     \cup {[t |-> "ds", kind |-> "literal", tag |-> 15 + a, out |-> a] : a \in {1, 50}}
     \cup {[t |-> "fail"], [t |-> "unknown", name |-> 6, tag |-> 6], [t |-> "unterminated", n |-> 0]}
+(* path templates whose data-source value is a long directory name: the template's own fixed limit (PATH_MAX) applies, not the configured *)
+(* datasource_message_max_length (values just below, at and above 255 and 2047, the minimum and default of that option)                 *)
+TokensPathDir ==
+    {[t |-> "lit", n |-> 6]}
+    \cup {[t |-> "ds", kind |-> "env", tag |-> 6, out |-> o] : o \in {200, 254, 255, 256, 300, 2046, 2047, 2048, 2100, 3000, 4000}}
 NoDefects == {}
 DefAppend == {"append_off_by_one"}
 DefDs     == {"ds_plus_one"}
